@@ -316,6 +316,27 @@ package spdxexp
 // what the code computes: the rule, or (same exception and) canonical strings equal up to letter case
 //@ pred matchT(a Tree, b Tree) = licMatch(a, b) || refMatch(a, b) || (isTLic(a) && isTLic(b) && excOK(a, b) && EqualFold(reconT(a), reconT(b)))
 //@ axiom forall x string {EqualFold(x, x)} :: EqualFold(x, x)
+//@ axiom forall x string, y string {EqualFold(x, y)} :: EqualFold(x, y) ==> EqualFold(y, x)
+
+// Properties of the matching rule named in C02, proved from the definitions above (pure SMT, no code involved).
+//@ lemma[C02] licMatchSymmetric: forall a Tree, b Tree :: licMatch(a, b) <==> licMatch(b, a)
+//@ lemma[C02] refMatchSymmetric: forall a Tree, b Tree :: refMatch(a, b) <==> refMatch(b, a)
+//@ lemma[C02] matchSymmetric: forall a Tree, b Tree :: matchT(a, b) <==> matchT(b, a)
+//@ lemma[C02] licMatchReflexive: forall a Tree :: isTLic(a) ==> licMatch(a, a)
+//@ lemma[C02] refMatchReflexive: forall a Tree :: isTRef(a) ==> refMatch(a, a)
+//@ lemma[C02] licenseNeverMatchesRef: forall a Tree, b Tree :: isTLic(a) && isTRef(b) ==> !matchT(a, b) && !matchT(b, a)
+// Equal canonical strings denote equal terms (used by the set reading of the allowed list, C07, and of the
+// extracted list, C06): ids, exception ids and reference names consist of id characters, a license id never starts
+// with a reference prefix, and absent parts are empty.
+//@ pred wfLeafT(t Tree) = ite(isTLic(t), inRe(tlId(t), "idch+") && !HasPrefix(tlId(t), "LicenseRef-") && !HasPrefix(tlId(t), "DocumentRef-") && ite(tlHasExc(t), inRe(tlExc(t), "idch+"), tlExc(t) == ""), isTRef(t) && inRe(trRef(t), "idch+") && ite(trHasDoc(t), inRe(trDoc(t), "idch+"), trDoc(t) == ""))
+// (string lemmas: decided by cvc5 in seconds to a minute; they involve no code, so they are run in the thorough tier only)
+//@ lemma[C06,C07,thorough] reconInjectiveLicLic00: forall a Tree, b Tree :: isTLic(a) && isTLic(b) && wfLeafT(a) && wfLeafT(b) && !tlHasExc(a) && !tlHasExc(b) && reconT(a) == reconT(b) ==> a == b
+//@ lemma[C06,C07,thorough] reconInjectiveLicLic10: forall a Tree, b Tree :: isTLic(a) && isTLic(b) && wfLeafT(a) && wfLeafT(b) && tlHasExc(a) && !tlHasExc(b) ==> reconT(a) != reconT(b)
+//@ lemma[C06,C07,thorough] reconInjectiveLicLic11: forall a Tree, b Tree :: isTLic(a) && isTLic(b) && wfLeafT(a) && wfLeafT(b) && tlHasExc(a) && tlHasExc(b) && reconT(a) == reconT(b) ==> a == b
+//@ lemma[C06,C07,thorough] reconInjectiveRefRef: forall a Tree, b Tree :: isTRef(a) && isTRef(b) && wfLeafT(a) && wfLeafT(b) && reconT(a) == reconT(b) ==> a == b
+//@ lemma[C06,C07,thorough] reconInjectiveLicRef: forall a Tree, b Tree :: isTLic(a) && isTRef(b) && wfLeafT(a) && wfLeafT(b) ==> reconT(a) != reconT(b)
+//@ lemma[C02,C11] plusStaysInFamily: forall a Tree, b Tree :: licMatch(a, b) && tlId(a) != tlId(b) ==> sameFam(tlId(a), tlId(b))
+//@ lemma[C11] plusReachesLaterVersions: forall a Tree, b Tree :: isTLic(a) && isTLic(b) && excOK(a, b) && tlPlus(a) && !tlPlus(b) && sameFam(tlId(a), tlId(b)) ==> (licMatch(a, b) <==> (tlId(a) == tlId(b) || Ver(simp(tlId(b))) >= Ver(simp(tlId(a)))))
 
 //@ func (*node).reconstructedLicenseString
 //@   requires n != nil
